@@ -2,16 +2,18 @@
 //!
 //! Real side: the real `retry_with_backoff`, `with_timeout`, `batch_in_chunks`, `paginate` and the
 //! wrappers of `helpers::cloud` driven by *scripted closures* (a closure that answers the next
-//! outcome of a script, counts its calls and records its arguments). Back-off delays are observed
-//! through the `verif_hooks::on_sleep` callback (delays are 0..3 ms, 5/8 ms in a few timed cases).
+//! outcome of a script, counts its calls, records its arguments and the `Instant`s of its entry and exit).
+//! Back-off delays are observed twice: through the `verif_hooks::on_sleep` callback (the value of `delay_ms`)
+//! and on the real clock (the gap between the exit of one call and the entry of the next).
 //!
 //! Requests (see `lean/IbModel/Driver/D18.lean` for the grammar):
 //!   RETRY <raw|run|cio|tr|ciotr|bld|exe> max=<n|-> init= cap= mult=<f64 bits> lim=<ms|-> d=<ms> s=<script>
-//!   BATCH <raw|run> n=<items> size=<s> f=<script>
+//!   BATCH <raw|run> n=<items> size=<s> par=<0|1> f=<script>
 //!   PAGE <raw|run|cio> psize=<k> max=<m|-> p=<script>
 //!   TIMEOUT lim=<ms> el=<ms> r=<ok|Kind>
 //!   IOBATCH max= init= cap= mult= n=<items> s=<script>
-//!   TIMING near=<n> reruns=<r> lost=<l>
+//!   PARALLEL s=<script>
+//!   CONTEXT name=<token> pre=<acts> ops=<acts> r=<ok|Kind>
 //!
 //! Oracles (independent of the Lean model; they restate the property on the observed calls):
 //! attempt count = min(1 + index of first Ok/permanent outcome, max(1,budget)); no call after a
@@ -21,21 +23,37 @@
 //! it succeeds / fails permanently / used its budget, in order, nothing after the first failing item);
 //! chunks handed to the processor are non-empty,
 //! <= max(size,1), concatenate to a prefix of the items / all items, stop at the first failing
-//! chunk; pages are concatenated up to the first empty / final page / page limit, errors pass through;
-//! an Ok result that overran its limit is a Timeout error.
+//! chunk (for `BatchConfig.parallel` false AND true); pages are concatenated up to the first empty / final
+//! page / page limit, errors pass through; an Ok result that overran its limit is a Timeout error;
+//! `run_parallel` invokes the operations in order up to the first failing one; `run_with_context` calls the
+//! operation once and returns the context as the operation left it.
 //!
-//! Real time. Back-off delays in the exhaustive / random blocks are 0..3 ms and really slept (the blocks
-//! with non-zero delays run on worker threads; the `on_sleep` recorder is thread-local). Timed cases use
-//! the nominal clock (scripted call durations + recorded waits) for the model; a nominally-within run
-//! whose real clock came within 1 ms of the limit is repeated up to 8 times (with a growing pause), then judged by the real clock
-//! only. Such cases are counted (`timing:*`), reported as a `TIMING` case, and bounded:
-//! more than max(2, near-limit cases / 10) of them is the oracle failure `timing-skip-rate-exceeded`.
+//! REAL TIME — design rule: no verdict of this file depends on the machine being fast.
+//! * The reported waits (hook values) are tied to the real clock in every run that sleeps:
+//!   `gap_i >= hook_i` (`thread::sleep` never returns early) — signature `retry-real-wait-shorter-than-reported`.
+//! * The cap clause on the real clock is judged in one dedicated block (`wait block`: cap 2 ms, 63 waits per
+//!   run, every retry wrapper and the per-item batch): a single wait after the first may not exceed
+//!   cap + 200 ms, and the SHORTEST of the >= 20 waits of a run may not exceed cap + 15 ms (nor the shortest of
+//!   as many plain `thread::sleep(cap)` calls measured by the harness right afterwards + 15 ms; the floor of
+//!   many waits is insensitive to scheduling noise, which only ever delays single wake-ups) — signature
+//!   `retry-real-wait-exceeds-cap`.
+//! * Every timing verdict is CONFIRMED BY RE-EXECUTION: the whole case is run again (6 executions for the wait
+//!   verdicts, 8 for the timeout verdicts, with a growing pause in between) and the verdict is reported only
+//!   if it reproduces in every execution. Otherwise it is counted (`timing:*`) and mentioned in the notes.
+//! * Timed cases use the nominal clock (scripted call durations + recorded waits) for the model. The real
+//!   clock only ever runs later, so only ONE direction can be disturbed by a slow machine: a nominally-within
+//!   run that reports `Timeout`. Such a run is repeated; if it reports `Timeout` in all 8 executions it is
+//!   classified by what the scripted closure itself observed: when the operation (first entry to last exit)
+//!   really lasted up to the limit every time, the case is judged by the real clock only, kept away from the
+//!   model and counted — a NOTE in the evidence, never a failure; when the operation finished well inside the
+//!   limit every time and the wrapper still said `Timeout` (the time was lost outside the closure, 8 of 8
+//!   times), that is the deterministic failure `timeout-spurious`.
 
 use crate::ctx::{Ctx, Tier, guarded};
 use ironbeam::helpers::cloud::{
-    BatchConfig, CloudIOExecutor, OperationBuilder, run_batch_operation, run_cloud_io_batch,
+    BatchConfig, CloudIOExecutor, OperationBuilder, OperationContext, run_batch_operation, run_cloud_io_batch,
     run_cloud_io_paginated, run_cloud_io_with_retry, run_cloud_io_with_retry_and_timeout,
-    run_paginated_operation, run_with_retry, run_with_timeout_and_retry,
+    run_paginated_operation, run_parallel, run_with_context, run_with_retry, run_with_timeout_and_retry,
 };
 use ironbeam::io::cloud::traits::{CloudIOError, CloudResult, ErrorKind};
 use ironbeam::io::cloud::utils::{
@@ -165,6 +183,13 @@ impl Oc {
 fn script_str(s: &[Oc]) -> String {
     if s.is_empty() { "-".into() } else { s.iter().map(Oc::tok).collect::<Vec<_>>().join(",") }
 }
+fn ofail(cx: &mut Ctx, i: usize, sig: &str, detail: String) {
+    cx.oracle_fail(i, sig, brief(detail));
+}
+/// details of oracle failures are for reading: keep them short
+fn brief(s: String) -> String {
+    if s.len() <= 400 { s } else { let mut t: String = s.chars().take(380).collect(); t.push_str(" ...(truncated)"); t }
+}
 fn nats(v: &[u64]) -> String {
     if v.is_empty() { "-".into() } else { v.iter().map(|x| x.to_string()).collect::<Vec<_>>().join(",") }
 }
@@ -174,25 +199,144 @@ struct Scripted {
     calls: Cell<usize>,
     exhausted: Cell<bool>,
     d_ms: u64,
+    /// real clock: (entry, exit) of every call
+    stamps: RefCell<Vec<(Instant, Instant)>>,
 }
 impl Scripted {
     fn new(script: &[Oc], d_ms: u64) -> Self {
-        Scripted { script: script.to_vec(), calls: Cell::new(0), exhausted: Cell::new(false), d_ms }
+        Scripted { script: script.to_vec(), calls: Cell::new(0), exhausted: Cell::new(false), d_ms, stamps: RefCell::new(Vec::new()) }
     }
     fn call(&self) -> CloudResult<u64> {
+        let t_in = Instant::now();
         let i = self.calls.get();
         self.calls.set(i + 1);
         if self.d_ms > 0 {
             std::thread::sleep(Duration::from_millis(self.d_ms));
         }
-        match self.script.get(i) {
+        let r = match self.script.get(i) {
             None => {
                 self.exhausted.set(true);
                 Err(CloudIOError::new(ErrorKind::Other, "exhausted"))
             }
             Some(Oc::Ok) => Ok(i as u64),
             Some(Oc::Err(k)) => Err(CloudIOError::new(all_kinds()[*k].clone(), format!("e{i}"))),
+        };
+        self.stamps.borrow_mut().push((t_in, Instant::now()));
+        r
+    }
+    /// real waits between consecutive calls: exit of call i -> entry of call i+1
+    fn gaps(&self) -> Vec<Duration> {
+        let st = self.stamps.borrow();
+        st.windows(2).map(|w| w[1].0.saturating_duration_since(w[0].1)).collect()
+    }
+    /// what the closure itself saw of the real clock: entry of the first call -> exit of the last one
+    fn span(&self) -> Duration {
+        let st = self.stamps.borrow();
+        match (st.first(), st.last()) {
+            (Some(a), Some(b)) => b.1.saturating_duration_since(a.0),
+            _ => Duration::ZERO,
         }
+    }
+}
+
+// ---------------------------------------------------------------------------------------------
+// real-clock verdicts (always confirmed by re-execution before they are reported)
+// ---------------------------------------------------------------------------------------------
+
+/// single wait after the first: cap + this much is a failure (if it reproduces)
+const WAIT_SLACK: Duration = Duration::from_millis(200);
+/// shortest of >= FLOOR_MIN_WAITS waits of one run: cap + this much is a failure (if it reproduces and the
+/// harness's own `thread::sleep(cap)` is not just as late)
+const FLOOR_MARGIN: Duration = Duration::from_millis(15);
+const FLOOR_MIN_WAITS: usize = 20;
+/// executions of a case whose wait verdict must ALL show the verdict before it is reported
+const WAIT_CONFIRM: usize = 6;
+const SIG_SHORT: &str = "retry-real-wait-shorter-than-reported";
+const SIG_LONG: &str = "retry-real-wait-exceeds-cap";
+const K_WAIT_RERUN: &str = "timing:wait-verdict-rerun(confirmation by re-execution)";
+const K_WAIT_CLEARED: &str = "timing:wait-verdict-not-reproduced(machine noise, dropped)";
+const K_GAPS_CHECKED: &str = "timing:real-waits-measured(gap >= reported wait)";
+const K_CAP_CHECKED: &str = "timing:real-waits-measured(cap clause: single wait <= cap+200ms, floor <= cap+15ms)";
+
+/// shortest of `k` plain `thread::sleep(ms)` calls, measured like the gaps are (the machine's own lateness now)
+fn control_floor(ms: u64, k: usize) -> Duration {
+    (0..k.max(1)).map(|_| {
+        let t = Instant::now();
+        std::thread::sleep(Duration::from_millis(ms));
+        t.elapsed()
+    }).min().unwrap_or(Duration::ZERO)
+}
+
+/// One real-clock verdict of ONE execution: signature, the indices of the offending waits (`FLOOR` for the
+/// statistic over all waits of the run), detail.
+type WaitVerdict = (&'static str, Vec<usize>, String);
+const FLOOR: usize = usize::MAX;
+
+/// Real-clock verdicts of ONE execution. `waits[i] = (real gap, reported wait in ms)`, in order.
+/// `full`: also the cap clause (the property: "waits between attempts never exceed the configured cap once
+/// backed off" — every wait after the first).
+fn wait_verdicts(waits: &[(Duration, u64)], cap: u64, full: bool) -> Vec<WaitVerdict> {
+    let mut v: Vec<WaitVerdict> = vec![];
+    let short: Vec<usize> = waits.iter().enumerate().filter(|(_, (g, h))| *g < Duration::from_millis(*h)).map(|(i, _)| i).collect();
+    if let Some(&i) = short.first() {
+        let (g, h) = waits[i];
+        v.push((SIG_SHORT, short, format!("wait {i}: {h} ms reported to the sleep hook, the next attempt started after {g:?}")));
+    }
+    if full {
+        let capd = Duration::from_millis(cap);
+        let long: Vec<usize> = waits.iter().enumerate().skip(1).filter(|(_, (g, _))| *g > capd + WAIT_SLACK).map(|(i, _)| i).collect();
+        if let Some(&i) = long.first() {
+            v.push((SIG_LONG, long, format!("wait {i} lasted {:?}, cap {cap} ms (+ {WAIT_SLACK:?} allowance)", waits[i].0)));
+        } else if waits.len() > FLOOR_MIN_WAITS {
+            let floor = waits.iter().skip(1).map(|(g, _)| *g).min().unwrap();
+            if floor > capd + FLOOR_MARGIN {
+                let ctl = control_floor(cap, waits.len() - 1);
+                if floor > ctl + FLOOR_MARGIN {
+                    v.push((SIG_LONG, vec![FLOOR], format!(
+                        "the shortest of {} waits after the first lasted {floor:?}, cap {cap} ms (the shortest of as many thread::sleep({cap} ms) of the harness: {ctl:?})",
+                        waits.len() - 1)));
+                }
+            }
+        }
+    }
+    v
+}
+
+/// Confirmation state of the wait verdicts of one case across its executions. A verdict stands only while the
+/// SAME wait (same index; or the floor statistic) is at fault in every execution: scheduling noise delays a
+/// different wake-up each time, a defect in the code delays the same one.
+struct Confirm {
+    runs: usize,
+    standing: Vec<WaitVerdict>,
+}
+impl Confirm {
+    fn new() -> Self { Confirm { runs: 0, standing: vec![] } }
+    /// feed the verdicts of one more execution; `true` = run the case again
+    fn again(&mut self, v: Vec<WaitVerdict>, counts: &mut Vec<String>) -> bool {
+        self.runs += 1;
+        if self.runs == 1 {
+            self.standing = v;
+        } else {
+            let prev = std::mem::take(&mut self.standing);
+            for (sig, idx, detail) in v {
+                let common: Vec<usize> = idx.into_iter()
+                    .filter(|i| prev.iter().any(|(p, pi, _)| *p == sig && pi.contains(i)))
+                    .collect();
+                if let Some(&i) = common.first() {
+                    let detail = if i == FLOOR { detail } else { format!("{detail}; wait {i} at fault in every execution") };
+                    self.standing.push((sig, common, detail));
+                }
+            }
+            if self.standing.is_empty() { counts.push(K_WAIT_CLEARED.into()); }
+        }
+        if self.standing.is_empty() || self.runs >= WAIT_CONFIRM { return false; }
+        counts.push(K_WAIT_RERUN.into());
+        std::thread::sleep(Duration::from_millis(40 * self.runs as u64));
+        true
+    }
+    fn into_fails(self) -> Vec<(&'static str, String)> {
+        let n = self.runs;
+        self.standing.into_iter().map(|(s, _, d)| (s, format!("{d}; reproduced in {n} of {n} executions"))).collect()
     }
 }
 
@@ -257,7 +401,7 @@ fn emit(cx: &mut Ctx, rec: Rec, to_model: bool, oracle_only_label: &str) {
     let Some((req, answer, nt)) = rec.case else { return };
     if (to_model && !rec.oracle_only) || !rec.fails.is_empty() {
         let i = cx.case(req, answer, nt);
-        for (sig, detail) in rec.fails { cx.oracle_fail(i, sig, detail); }
+        for (sig, detail) in rec.fails { ofail(cx, i, sig, detail); }
     } else {
         cx.count(oracle_only_label);
     }
@@ -268,17 +412,70 @@ fn emit(cx: &mut Ctx, rec: Rec, to_model: bool, oracle_only_label: &str) {
 const NEAR_LIMIT_MS: u64 = 1_000;
 const TIMING_TRIES: usize = 8;
 const K_NEAR: &str = "timing:near-limit-cases(nominally within a limit <= 1 s away)";
-const K_RERUN: &str = "timing:rerun(real clock came within 1 ms of the limit)";
-const K_UNSTABLE: &str = "timing:unstable-after-8-runs(judged by the real clock only, not sent to the model)";
+const K_RERUN: &str = "timing:rerun(nominally within its limit, reported Timeout)";
+const K_UNSTABLE: &str = "timing:slow-machine(Timeout in all 8 executions while the operation itself lasted up to the limit; judged by the real clock only, not sent to the model)";
 const K_AMBIG: &str = "timing:nominal-equals-limit(generator artefact, skipped)";
+/// once one case has shown the deterministic `timeout-spurious`, later cases are confirmed with 2 executions
+static SPURIOUS_CONFIRMED: std::sync::atomic::AtomicBool = std::sync::atomic::AtomicBool::new(false);
+fn timing_tries() -> usize {
+    if SPURIOUS_CONFIRMED.load(std::sync::atomic::Ordering::Relaxed) { 2 } else { TIMING_TRIES }
+}
+
+/// How a nominally-within execution that reported `Timeout` looked from inside the scripted closure.
+#[derive(Default)]
+struct TimeoutRuns {
+    /// the operation itself (first entry .. last exit) lasted up to the limit (minus 1 ms): the machine was slow
+    slow_operation: usize,
+    /// the operation finished inside the limit and the wrapper still reported Timeout
+    lost_outside: usize,
+    last_span: Duration,
+}
+enum TimeoutVerdict { Rerun, RealClockOnly, Spurious(String) }
+impl TimeoutRuns {
+    fn feed(&mut self, span: Duration, limit_ms: u64, counts: &mut Vec<String>) -> TimeoutVerdict {
+        self.last_span = span;
+        if span + Duration::from_millis(1) >= Duration::from_millis(limit_ms) { self.slow_operation += 1; } else { self.lost_outside += 1; }
+        let tries = self.slow_operation + self.lost_outside;
+        if tries < timing_tries() {
+            counts.push(K_RERUN.into());
+            // let a loaded machine settle before the rerun (a slow implementation stays slow)
+            std::thread::sleep(Duration::from_millis(25 * tries as u64));
+            return TimeoutVerdict::Rerun;
+        }
+        if self.slow_operation == 0 {
+            SPURIOUS_CONFIRMED.store(true, std::sync::atomic::Ordering::Relaxed);
+            return TimeoutVerdict::Spurious(format!(
+                "Timeout reported in {tries} of {tries} executions although the operation (calls + waits, as observed by the closure) finished after {:?} of a {limit_ms} ms limit each time",
+                self.last_span));
+        }
+        counts.push(K_UNSTABLE.into());
+        TimeoutVerdict::RealClockOnly
+    }
+}
+fn is_made_up_timeout<T>(r: &Result<CloudResult<T>, String>) -> bool {
+    matches!(r, Ok(Err(e)) if e.kind == ErrorKind::Timeout && e.message.starts_with("Operation exceeded timeout"))
+}
+
+#[derive(Clone, Copy, PartialEq, Eq)]
+enum Waits {
+    /// real waits are only tied to the reported ones (`gap >= hook`)
+    Reported,
+    /// plus the cap clause on the real clock (the dedicated wait block)
+    Cap,
+}
 
 /// One RETRY case on the real code. Pure with respect to the `Ctx` (see `Rec`).
 fn exec_retry(w: &str, rc: Option<RCfg>, lim: Option<u64>, d: u64, script: &[Oc]) -> Rec {
+    exec_retry_w(w, rc, lim, d, script, Waits::Reported)
+}
+
+fn exec_retry_w(w: &str, rc: Option<RCfg>, lim: Option<u64>, d: u64, script: &[Oc], waits_mode: Waits) -> Rec {
     install_sleep_hook();
     let mut counts: Vec<String> = vec![];
-    let mut tries = 0;
+    let mut first = true;
+    let mut touts = TimeoutRuns::default();
+    let mut confirm = Confirm::new();
     loop {
-        tries += 1;
         let s = Scripted::new(script, d);
         take_sleeps();
         let t0 = Instant::now();
@@ -304,33 +501,46 @@ fn exec_retry(w: &str, rc: Option<RCfg>, lim: Option<u64>, d: u64, script: &[Oc]
             }
             _ => panic!("harness: bad wrapper combination"),
         });
-        let outer_ms = t0.elapsed().as_millis() as u64;
+        let outer = t0.elapsed();
         let sleeps = take_sleeps();
         let calls = s.calls.get();
         let exhausted = s.exhausted.get();
         let n = if exhausted { calls - 1 } else { calls };
         let nominal: u64 = n as u64 * d + sleeps.iter().sum::<u64>();
-        // timing guard: the model's clock is the nominal one (scripted durations + sleeps); the real
-        // clock only ever runs later. If the run was nominally within the limit but the machine was so
-        // slow that it may have overrun, the run is repeated; if that happens TIMING_TRIES times in a row
-        // the case is still judged — by the real clock — but not compared with the model. Both are counted
-        // and the number of such cases is bounded at the end of `run` (`timing-skip-rate-exceeded`).
+        let last_is_ok = n >= 1 && n <= script.len() && !exhausted && script[n - 1] == Oc::Ok;
+        // timing guard: the model's clock is the nominal one (scripted durations + sleeps); the real clock only
+        // ever runs later, so the only thing a slow machine can change is: nominally within, reported Timeout.
+        // Such a run is repeated (see the header: REAL TIME).
         let mut real_clock_only = false;
+        let mut spurious: Option<String> = None;
         if let Some(t) = lim {
             if nominal == t {
                 counts.push(K_AMBIG.into());
                 return Rec { case: None, fails: vec![], counts, oracle_only: true };
             }
-            if nominal < t && t - nominal <= NEAR_LIMIT_MS && tries == 1 { counts.push(K_NEAR.into()); }
-            if nominal < t && outer_ms + 1 >= t {
-                if tries < TIMING_TRIES {
-                    counts.push(K_RERUN.into());
-                    // let a loaded machine settle before the rerun (a slow implementation stays slow)
-                    std::thread::sleep(Duration::from_millis(25 * tries as u64));
-                    continue;
+            if nominal < t && t - nominal <= NEAR_LIMIT_MS && first { counts.push(K_NEAR.into()); }
+            first = false;
+            if nominal < t && last_is_ok && is_made_up_timeout(&r) {
+                match touts.feed(s.span(), t, &mut counts) {
+                    TimeoutVerdict::Rerun => continue,
+                    TimeoutVerdict::RealClockOnly => real_clock_only = true,
+                    TimeoutVerdict::Spurious(d) => spurious = Some(d),
                 }
-                counts.push(K_UNSTABLE.into());
-                real_clock_only = true;
+            }
+        }
+        // real waits against reported waits (and, in the wait block, against the cap); reported only when the
+        // verdict reproduces in every one of WAIT_CONFIRM executions
+        if r.is_ok() && !sleeps.is_empty() {
+            let gaps = s.gaps();
+            if gaps.len() == sleeps.len() {
+                let ws: Vec<(Duration, u64)> = gaps.iter().copied().zip(sleeps.iter().copied()).collect();
+                let cap = rc.map_or(0, |c| c.cap);
+                if confirm.runs == 0 {
+                    counts.push(if waits_mode == Waits::Cap { K_CAP_CHECKED.into() } else { K_GAPS_CHECKED.to_string() });
+                }
+                if confirm.again(wait_verdicts(&ws, cap, waits_mode == Waits::Cap), &mut counts) { continue; }
+            } else {
+                counts.push("timing:waits-and-gaps-differ-in-number(left to the model comparison)".into());
             }
         }
         let out = match &r {
@@ -349,7 +559,7 @@ fn exec_retry(w: &str, rc: Option<RCfg>, lim: Option<u64>, d: u64, script: &[Oc]
         let budget = rc.map_or(1usize, |c| (c.max as usize).max(1));
         let first_term = script.iter().position(Oc::terminal);
         let n_exp = first_term.map_or(budget, |i| (i + 1).min(budget));
-        let mut fails: Vec<(&'static str, String)> = vec![];
+        let mut fails: Vec<(&'static str, String)> = confirm.into_fails();
         if r.is_err() {
             fails.push(("retry-panicked", format!("{r:?}")));
         } else if n_exp > script.len() {
@@ -371,11 +581,14 @@ fn exec_retry(w: &str, rc: Option<RCfg>, lim: Option<u64>, d: u64, script: &[Oc]
                     },
                     Oc::Err(k) => format!("ERR:{}:{}", kind_name(k), n - 1),
                 };
-                // real-clock verdict for a run that stayed within 1 ms of its limit every time: a Timeout is
-                // legitimate iff the real clock (which includes everything with_timeout measured) passed the limit
+                // real-clock verdict for a run that reported Timeout in every execution while the operation itself
+                // lasted up to the limit: legitimate iff the real clock (which includes everything with_timeout
+                // measured) passed the limit
                 let legit_real_timeout = real_clock_only && last == Oc::Ok && out == "ERR:Timeout:T"
-                    && lim.map_or(false, |t| outer_ms >= t);
-                if out != want && !legit_real_timeout {
+                    && lim.map_or(false, |t| outer >= Duration::from_millis(t));
+                if let Some(detail) = spurious {
+                    fails.push(("timeout-spurious", detail));
+                } else if out != want && !legit_real_timeout {
                     let sig = if want == "ERR:Timeout:T" { "timeout-not-reported" }
                         else if out == "ERR:Timeout:T" { "timeout-spurious" }
                         else { "retry-wrong-outcome" };
@@ -396,7 +609,7 @@ fn exec_retry(w: &str, rc: Option<RCfg>, lim: Option<u64>, d: u64, script: &[Oc]
             }
         }
         counts.push(format!("retry:w={w}"));
-        counts.push(format!("retry:attempts={}", n.min(9)));
+        counts.push(format!("retry:attempts={}", if n <= 9 { n.to_string() } else if n <= 16 { "10..16".into() } else if n <= 63 { "17..63".into() } else { ">=64".to_string() }));
         if let Some(c) = rc {
             counts.push(format!("retry:delays={}", if c.init == 0 && c.cap == 0 { "zero" } else if c.init < c.cap { "init<cap" } else if c.init > c.cap { "init>cap" } else { "init=cap" }));
         }
@@ -445,48 +658,74 @@ fn iobatch_expect(max: u32, n_items: usize, script: &[Oc]) -> (Vec<u64>, String,
 }
 
 fn exec_iobatch(c: RCfg, n_items: usize, script: &[Oc]) -> Rec {
+    exec_iobatch_w(c, n_items, script, Waits::Reported)
+}
+
+fn exec_iobatch_w(c: RCfg, n_items: usize, script: &[Oc], waits_mode: Waits) -> Rec {
     install_sleep_hook();
-    let s = Scripted::new(script, 0);
     let items: Vec<u64> = (0..n_items as u64).collect();
-    let seen: RefCell<Vec<u64>> = RefCell::new(vec![]);
-    take_sleeps();
-    let r = guarded(|| {
-        run_cloud_io_batch(&c.real(), &items, |it: &u64| {
-            seen.borrow_mut().push(*it);
-            s.call()
-        })
-    });
-    let sleeps = take_sleeps();
-    let exhausted = s.exhausted.get();
-    let mut calls = seen.borrow().clone();
-    if exhausted { calls.pop(); }
-    let out = match &r {
-        Err(_) => "PANIC".to_string(),
-        Ok(_) if exhausted => "EXH".to_string(),
-        Ok(x) => list_res_str(x),
-    };
-    let answer = format!("calls={} sl={} out={out}", nats(&calls), nats(&sleeps));
-    let req = format!("IOBATCH {} n={n_items} s={}", cfg_str(Some(c)), script_str(script));
-    let (want_calls, want_out, _) = iobatch_expect(c.max, n_items, script);
-    let nt = n_items >= 2 && script.len() >= 2;
-    let mut fails: Vec<(&'static str, String)> = vec![];
     let mut counts = vec![format!("iobatch:items={n_items}")];
-    counts.push(format!("iobatch:delays={}", if c.init == 0 && c.cap == 0 { "zero" } else if c.init < c.cap { "init<cap" } else if c.init > c.cap { "init>cap" } else { "init=cap" }));
-    if r.is_err() {
-        fails.push(("iobatch-panicked", format!("{r:?}")));
-    } else {
-        if calls != want_calls {
-            // "attempted until ..." for every item: too few calls for an item (no retry) as well as too many
-            fails.push(("iobatch-wrong-calls", format!("operation called for items {calls:?}, expected {want_calls:?}")));
+    let mut confirm = Confirm::new();
+    loop {
+        let s = Scripted::new(script, 0);
+        let seen: RefCell<Vec<u64>> = RefCell::new(vec![]);
+        take_sleeps();
+        let r = guarded(|| {
+            run_cloud_io_batch(&c.real(), &items, |it: &u64| {
+                seen.borrow_mut().push(*it);
+                s.call()
+            })
+        });
+        let sleeps = take_sleeps();
+        let exhausted = s.exhausted.get();
+        // real waits: a back-off precedes call j+1 exactly when it is for the same item as call j
+        if r.is_ok() && !sleeps.is_empty() {
+            let gaps = s.gaps();
+            let sn = seen.borrow();
+            let retry_gaps: Vec<Duration> = gaps.iter().enumerate().filter(|(j, _)| sn.get(*j) == sn.get(*j + 1)).map(|(_, g)| *g).collect();
+            if retry_gaps.len() == sleeps.len() {
+                let ws: Vec<(Duration, u64)> = retry_gaps.into_iter().zip(sleeps.iter().copied()).collect();
+                if confirm.runs == 0 {
+                    counts.push(if waits_mode == Waits::Cap { K_CAP_CHECKED.into() } else { K_GAPS_CHECKED.to_string() });
+                }
+                // only one item's waits are "after the first" in the sense of the cap clause when there is one
+                // item; the wait block uses a single item
+                drop(sn);
+                if confirm.again(wait_verdicts(&ws, c.cap, waits_mode == Waits::Cap && n_items == 1), &mut counts) { continue; }
+            } else {
+                counts.push("timing:waits-and-gaps-differ-in-number(left to the model comparison)".into());
+            }
         }
-        if out != want_out {
-            fails.push(("iobatch-wrong-outcome", format!("returned {out}, expected {want_out}")));
+        let mut calls = seen.borrow().clone();
+        if exhausted { calls.pop(); }
+        let out = match &r {
+            Err(_) => "PANIC".to_string(),
+            Ok(_) if exhausted => "EXH".to_string(),
+            Ok(x) => list_res_str(x),
+        };
+        let answer = format!("calls={} sl={} out={out}", nats(&calls), nats(&sleeps));
+        let req = format!("IOBATCH {} n={n_items} s={}", cfg_str(Some(c)), script_str(script));
+        let (want_calls, want_out, _) = iobatch_expect(c.max, n_items, script);
+        let nt = n_items >= 2 && script.len() >= 2;
+        let mut fails: Vec<(&'static str, String)> = confirm.into_fails();
+        counts.push(format!("iobatch:delays={}", if c.init == 0 && c.cap == 0 { "zero" } else if c.init < c.cap { "init<cap" } else if c.init > c.cap { "init>cap" } else { "init=cap" }));
+        counts.push(format!("iobatch:calls={}", if calls.len() <= 16 { "<=16" } else if calls.len() <= 63 { "17..63" } else { ">=64" }));
+        if r.is_err() {
+            fails.push(("iobatch-panicked", format!("{r:?}")));
+        } else {
+            if calls != want_calls {
+                // "attempted until ..." for every item: too few calls for an item (no retry) as well as too many
+                fails.push(("iobatch-wrong-calls", format!("operation called for items {calls:?}, expected {want_calls:?}")));
+            }
+            if out != want_out {
+                fails.push(("iobatch-wrong-outcome", format!("returned {out}, expected {want_out}")));
+            }
+            if sleeps.iter().any(|x| *x > c.cap.max(c.init)) {
+                fails.push(("retry-sleep-exceeds-cap", format!("sleeps {sleeps:?}")));
+            }
         }
-        if sleeps.iter().any(|x| *x > c.cap.max(c.init)) {
-            fails.push(("retry-sleep-exceeds-cap", format!("sleeps {sleeps:?}")));
-        }
+        return Rec { case: Some((req, answer, nt)), fails, counts, oracle_only: false };
     }
-    Rec { case: Some((req, answer, nt)), fails, counts, oracle_only: false }
 }
 
 fn one_iobatch_m(cx: &mut Ctx, c: RCfg, n_items: usize, script: &[Oc], to_model: bool) {
@@ -546,6 +785,13 @@ fn proc_answer(p: Pr, i: usize, chunk: &[u64]) -> CloudResult<Vec<u64>> {
 }
 
 fn one_batch(cx: &mut Ctx, w: &str, n_items: usize, size: usize, fscript: &[Pr]) {
+    one_batch_p(cx, w, n_items, size, false, fscript);
+}
+
+/// `par` = `BatchConfig.parallel` (only `run_batch_operation` has it). The oracle is the same for both values:
+/// the property's batch clause does not depend on the flag.
+fn one_batch_p(cx: &mut Ctx, w: &str, n_items: usize, size: usize, par: bool, fscript: &[Pr]) {
+    assert!(w == "run" || !par);
     let items: Vec<u64> = (0..n_items as u64).collect();
     let calls: Mutex<Vec<Vec<u64>>> = Mutex::new(vec![]);
     let r = guarded(|| {
@@ -558,7 +804,7 @@ fn one_batch(cx: &mut Ctx, w: &str, n_items: usize, size: usize, fscript: &[Pr])
         };
         match w {
             "raw" => batch_in_chunks(&items, size, proc_),
-            "run" => run_batch_operation(&items, &BatchConfig { chunk_size: size, parallel: false }, proc_),
+            "run" => run_batch_operation(&items, &BatchConfig { chunk_size: size, parallel: par }, proc_),
             _ => panic!("harness: bad batch wrapper"),
         }
     });
@@ -569,24 +815,25 @@ fn one_batch(cx: &mut Ctx, w: &str, n_items: usize, size: usize, fscript: &[Pr])
         Ok(x) => list_res_str(x),
     };
     let fs = if fscript.is_empty() { "-".to_string() } else { fscript.iter().map(Pr::tok).collect::<Vec<_>>().join(",") };
-    let req = format!("BATCH {w} n={n_items} size={size} f={fs}");
+    let req = format!("BATCH {w} n={n_items} size={size} par={} f={fs}", u8::from(par));
     let answer = if r.is_err() { "PANIC".to_string() } else { format!("calls={calls_s} res={res}") };
     let i = cx.case(req, answer, n_items >= 2 && size != 1);
     cx.count(&format!("batch:size={}", size.min(10)));
-    cx.count(&format!("batch:items={}", n_items.min(10)));
+    cx.count(&format!("batch:items={}", if n_items <= 10 { n_items.to_string() } else if n_items <= 40 { "11..40".into() } else { ">40".to_string() }));
+    if w == "run" { cx.count(if par { "batch:run_batch_operation parallel=true" } else { "batch:run_batch_operation parallel=false" }); }
     // ---- oracle ----
     if let Err(msg) = &r {
         let sig = if size == 0 { "batch-panics-on-chunk-size-0" } else { "batch-panicked" };
-        cx.oracle_fail(i, sig, format!("{msg}"));
+        ofail(cx, i, sig, format!("{msg}"));
         return;
     }
     let lim = size.max(1);
     if let Some(c) = calls.iter().find(|c| c.is_empty() || c.len() > lim) {
-        cx.oracle_fail(i, "batch-chunk-too-large-or-empty", format!("chunk {c:?} for requested size {size}"));
+        ofail(cx, i, "batch-chunk-too-large-or-empty", format!("chunk {c:?} for requested size {size}"));
     }
     let flat: Vec<u64> = calls.iter().flatten().copied().collect();
     if flat.len() > items.len() || flat[..] != items[..flat.len()] {
-        cx.oracle_fail(i, "batch-items-not-in-order-exactly-once", format!("processor saw {flat:?}"));
+        ofail(cx, i, "batch-items-not-in-order-exactly-once", format!("processor saw {flat:?}"));
     }
     let n_chunks = n_items.div_ceil(lim);
     let first_fail = fscript.iter().take(n_chunks).position(|p| matches!(p, Pr::Err(_)));
@@ -596,21 +843,21 @@ fn one_batch(cx: &mut Ctx, w: &str, n_items: usize, size: usize, fscript: &[Pr])
             let Pr::Err(k) = fscript[j] else { unreachable!() };
             let want = format!("ERR:{}:{j}", kind_name(k));
             if calls.len() != j + 1 {
-                cx.oracle_fail(i, "batch-did-not-stop-at-first-failing-chunk", format!("{} chunks processed, chunk {j} fails", calls.len()));
+                ofail(cx, i, "batch-did-not-stop-at-first-failing-chunk", format!("{} chunks processed, chunk {j} fails", calls.len()));
             }
             if res != want {
-                cx.oracle_fail(i, "batch-wrong-error", format!("returned {res}, chunk {j} failed with {want}"));
+                ofail(cx, i, "batch-wrong-error", format!("returned {res}, chunk {j} failed with {want}"));
             }
         }
         None => {
             if flat != items {
-                cx.oracle_fail(i, "batch-item-lost", format!("processor saw {flat:?} of {n_items} items"));
+                ofail(cx, i, "batch-item-lost", format!("processor saw {flat:?} of {n_items} items"));
             }
             let want: Vec<u64> = calls.iter().enumerate()
                 .flat_map(|(j, c)| proc_answer(fscript.get(j).copied().unwrap_or(Pr::Ok), j, c).unwrap())
                 .collect();
             if res != format!("OK:{}", nats(&want)) {
-                cx.oracle_fail(i, "batch-wrong-result", format!("returned {res}, concatenation of the processor's answers is {want:?}"));
+                ofail(cx, i, "batch-wrong-result", format!("returned {res}, concatenation of the processor's answers is {want:?}"));
             }
         }
     }
@@ -672,7 +919,7 @@ fn one_page(cx: &mut Ctx, w: &str, psize: u32, max_pages: Option<u32>, script: &
     let ps = if script.is_empty() { "-".to_string() } else { script.iter().map(Pg::tok).collect::<Vec<_>>().join(",") };
     let req = format!("PAGE {w} psize={psize} max={} p={ps}", max_pages.map_or("-".to_string(), |m| m.to_string()));
     let i = cx.case(req, format!("calls={calls_s} out={out}"), script.len() >= 2 && calls.len() >= 2);
-    cx.count(&format!("page:fetched={}", calls.len().min(9)));
+    cx.count(&format!("page:fetched={}", if calls.len() <= 9 { calls.len().to_string() } else if calls.len() < 1000 { "10..999".into() } else { ">=1000".to_string() }));
     // ---- oracle: concatenate up to the first empty page, the first final page, or the page limit ----
     let mut acc: Vec<u64> = vec![];
     let mut want: Option<String> = None;
@@ -692,26 +939,26 @@ fn one_page(cx: &mut Ctx, w: &str, psize: u32, max_pages: Option<u32>, script: &
         }
     }
     if r.is_err() {
-        cx.oracle_fail(i, "page-panicked", format!("{r:?}"));
+        ofail(cx, i, "page-panicked", format!("{r:?}"));
         return;
     }
     match want {
         None => {
             cx.count("page:script-exhausted");
-            if out != "EXH" { cx.oracle_fail(i, "page-stopped-early", format!("no page of the script ends the listing, yet {out}")); }
+            if out != "EXH" { ofail(cx, i, "page-stopped-early", format!("no page of the script ends the listing, yet {out}")); }
         }
         Some(wanted) => {
             if out != wanted {
                 let sig = if out == "EXH" || calls.len() > fetched { "page-fetched-beyond-stop" } else { "page-wrong-result" };
-                cx.oracle_fail(i, sig, format!("returned {out}, expected {wanted}"));
+                ofail(cx, i, sig, format!("returned {out}, expected {wanted}"));
             }
             if calls.len() != fetched {
-                cx.oracle_fail(i, "page-wrong-number-of-fetches", format!("{} fetches, expected {fetched}", calls.len()));
+                ofail(cx, i, "page-wrong-number-of-fetches", format!("{} fetches, expected {fetched}", calls.len()));
             }
         }
     }
     if calls.iter().enumerate().any(|(j, (p, s))| *p as usize != j || *s != psize) {
-        cx.oracle_fail(i, "page-wrong-arguments", format!("fetch_page called with {calls:?}, page size {psize}"));
+        ofail(cx, i, "page-wrong-arguments", format!("fetch_page called with {calls:?}, page size {psize}"));
     }
 }
 
@@ -722,26 +969,37 @@ fn one_page(cx: &mut Ctx, w: &str, psize: u32, max_pages: Option<u32>, script: &
 fn one_timeout(cx: &mut Ctx, lim: u64, el: u64, r_in: Oc) {
     assert!(lim != el);
     if el < lim && lim - el <= NEAR_LIMIT_MS { cx.count(K_NEAR); }
-    for attempt in 1..=TIMING_TRIES {
+    let mut touts = TimeoutRuns::default();
+    let mut counts: Vec<String> = vec![];
+    loop {
+        let span = Cell::new(Duration::ZERO);
         let t0 = Instant::now();
         let r = guarded(|| {
             with_timeout(Duration::from_millis(lim), || -> CloudResult<u64> {
+                let t_in = Instant::now();
                 if el > 0 { std::thread::sleep(Duration::from_millis(el)); }
-                match r_in {
+                let r = match r_in {
                     Oc::Ok => Ok(0),
                     Oc::Err(k) => Err(CloudIOError::new(all_kinds()[k].clone(), "e0")),
-                }
+                };
+                span.set(t_in.elapsed());
+                r
             })
         });
-        let outer = t0.elapsed().as_millis() as u64;
-        // same guard as in `exec_retry`: repeat a nominally-within run that came within 1 ms of the limit;
-        // after TIMING_TRIES such runs judge by the real clock and keep the case away from the model
+        let outer = t0.elapsed();
+        // same guard as in `exec_retry_w`: a nominally-within run that reported Timeout is repeated; Timeout in
+        // every execution is either the machine (the closure itself lasted up to the limit: real clock only,
+        // a note) or the wrapper (time lost outside the closure every time: `timeout-spurious`)
         let mut real_clock_only = false;
-        if el < lim && outer + 1 >= lim {
-            if attempt < TIMING_TRIES { cx.count(K_RERUN); std::thread::sleep(Duration::from_millis(25 * attempt as u64)); continue; }
-            cx.count(K_UNSTABLE);
-            real_clock_only = true;
+        let mut spurious: Option<String> = None;
+        if el < lim && r_in == Oc::Ok && is_made_up_timeout(&r) {
+            match touts.feed(span.get(), lim, &mut counts) {
+                TimeoutVerdict::Rerun => continue,
+                TimeoutVerdict::RealClockOnly => real_clock_only = true,
+                TimeoutVerdict::Spurious(d) => spurious = Some(d),
+            }
         }
+        for c in &counts { cx.count(c); }
         let out = match &r { Err(_) => "PANIC".to_string(), Ok(x) => res_str(x) };
         let want = match r_in {
             Oc::Err(k) => format!("ERR:{}:0", kind_name(k)),
@@ -749,41 +1007,152 @@ fn one_timeout(cx: &mut Ctx, lim: u64, el: u64, r_in: Oc) {
             Oc::Ok => "OK:0".to_string(),
         };
         cx.count(if el > lim { "timeout:overrun" } else { "timeout:within" });
-        let legit_real_timeout = real_clock_only && r_in == Oc::Ok && out == "ERR:Timeout:T" && outer >= lim;
+        let legit_real_timeout = real_clock_only && out == "ERR:Timeout:T" && outer >= Duration::from_millis(lim);
         let bad = out != want && !legit_real_timeout;
         if real_clock_only && !bad { return; }
         let i = cx.case(format!("TIMEOUT lim={lim} el={el} r={}", r_in.tok()), out.clone(), true);
-        if bad {
+        if let Some(detail) = spurious {
+            ofail(cx, i, "timeout-spurious", detail);
+        } else if bad {
             let sig = if want == "ERR:Timeout:T" { "timeout-not-reported" } else if out == "ERR:Timeout:T" { "timeout-spurious" } else { "timeout-wrong-outcome" };
-            cx.oracle_fail(i, sig, format!("returned {out}, expected {want}"));
+            ofail(cx, i, sig, format!("returned {out}, expected {want}"));
         }
         return;
     }
 }
 
-/// Bound on the timed cases that could not be compared with the model (a nominally-within run that stayed
-/// within 1 ms of its limit TIMING_TRIES times in a row, or a generated case whose nominal time equals its
-/// limit): at most `max(2, near_limit_cases / 10)` per run. More than that means the timeout clauses were
-/// not really examined in this run (overloaded machine — or an implementation that takes longer than the
-/// durations it reports), which is a failure of the run, not something to pass over with a counter.
-fn check_timing_skip_rate(cx: &mut Ctx) {
+/// Run-quality NOTE (never a failure): how many timed cases were near their limit, how often a case was run
+/// again, how many could only be judged by the real clock (the machine was too slow for the nominal clock).
+fn timing_note(cx: &mut Ctx) {
     let get = |cx: &Ctx, k: &str| cx.stats.get(k).copied().unwrap_or(0);
     let near = get(cx, K_NEAR);
     let reruns = get(cx, K_RERUN);
     let lost = get(cx, K_UNSTABLE) + get(cx, K_AMBIG);
-    let allowed = (near / 10).max(2);
-    cx.count_n("timing:allowed-uncompared-cases(max(2, near-limit/10))", allowed);
+    let wr = get(cx, K_WAIT_RERUN);
+    let wc = get(cx, K_WAIT_CLEARED);
+    let measured = get(cx, K_GAPS_CHECKED) + get(cx, K_CAP_CHECKED);
     cx.notes.push(format!(
-        "timing: {near} near-limit timed cases, {reruns} reruns, {lost} not compared with the model (allowed {allowed})"
+        "timing (run quality, informational): {near} near-limit timed cases, {reruns} re-executions after an unexpected Timeout, {lost} judged by the real clock only and not compared with the model; real waits measured in {measured} runs, {wr} re-executions to confirm a wait verdict, {wc} wait verdicts not reproduced and dropped"
     ));
-    // the bound is itself a case (the driver recomputes `allowed` and the verdict from the three counts)
-    let verdict = if lost > allowed { "exceeded" } else { "ok" };
-    let i = cx.case(format!("TIMING near={near} reruns={reruns} lost={lost}"), format!("allowed={allowed} verdict={verdict}"), false);
-    if lost > allowed {
-        cx.oracle_fail(i, "timing-skip-rate-exceeded", format!(
-            "{lost} of {near} near-limit timed cases could not be compared with the model after {TIMING_TRIES} runs each (allowed: {allowed}); {reruns} reruns"
-        ));
+    if lost > 0 {
+        cx.notes.push(format!("timing: the machine was too slow for {lost} near-limit timed case(s) in all {TIMING_TRIES} executions; their Timeout was checked against the real clock; re-run on a quieter machine for the model comparison of these cases"));
     }
+}
+
+// ---------------------------------------------------------------------------------------------
+// run_parallel
+// ---------------------------------------------------------------------------------------------
+
+fn one_parallel(cx: &mut Ctx, script: &[Oc]) {
+    let seen: Arc<Mutex<Vec<usize>>> = Arc::new(Mutex::new(vec![]));
+    let ops: Vec<Box<dyn FnOnce() -> CloudResult<u64> + Send>> = script.iter().copied().enumerate().map(|(i, o)| {
+        let seen = Arc::clone(&seen);
+        Box::new(move || -> CloudResult<u64> {
+            seen.lock().unwrap().push(i);
+            match o {
+                Oc::Ok => Ok(i as u64),
+                Oc::Err(k) => Err(CloudIOError::new(all_kinds()[k].clone(), format!("e{i}"))),
+            }
+        }) as Box<dyn FnOnce() -> CloudResult<u64> + Send>
+    }).collect();
+    let r = guarded(|| run_parallel(ops));
+    let calls: Vec<u64> = seen.lock().unwrap_or_else(|e| e.into_inner()).iter().map(|x| *x as u64).collect();
+    let out = match &r { Err(_) => "PANIC".to_string(), Ok(x) => list_res_str(x) };
+    let i = cx.case(format!("PARALLEL s={}", script_str(script)), format!("calls={} out={out}", nats(&calls)), script.len() >= 2);
+    cx.count(&format!("parallel:ops={}", if script.len() <= 4 { script.len().to_string() } else { ">4".to_string() }));
+    // ---- oracle (the code's contract: in order, each at most once, nothing after the first failure) ----
+    if r.is_err() { ofail(cx, i, "parallel-panicked", format!("{r:?}")); return; }
+    let first_err = script.iter().position(|o| matches!(o, Oc::Err(_)));
+    let want_n = first_err.map_or(script.len(), |j| j + 1);
+    let want_calls: Vec<u64> = (0..want_n as u64).collect();
+    let mut sorted = calls.clone();
+    sorted.sort_unstable();
+    sorted.dedup();
+    if sorted.len() != calls.len() {
+        ofail(cx, i, "parallel-operation-invoked-twice", format!("invoked {calls:?}"));
+    } else if calls != want_calls {
+        let sig = if calls.len() > want_n { "parallel-invoked-after-first-failure" } else if sorted == want_calls { "parallel-not-in-order" } else { "parallel-operation-not-invoked" };
+        ofail(cx, i, sig, format!("invoked {calls:?}, expected {want_calls:?}"));
+    }
+    let want_out = match first_err {
+        Some(j) => { let Oc::Err(k) = script[j] else { unreachable!() }; cx.count("parallel:with-failure"); format!("ERR:{}:{j}", kind_name(k)) }
+        None => format!("OK:{}", nats(&want_calls)),
+    };
+    if out != want_out { ofail(cx, i, "parallel-wrong-outcome", format!("returned {out}, expected {want_out}")); }
+}
+
+// ---------------------------------------------------------------------------------------------
+// run_with_context
+// ---------------------------------------------------------------------------------------------
+
+#[derive(Clone, Copy, PartialEq, Eq, Debug)]
+enum Act {
+    Inc,
+    Meta(usize, usize),
+}
+const CTX_KEYS: [&str; 3] = ["a", "b", "c"];
+const CTX_VALS: [&str; 3] = ["x", "y", "z"];
+impl Act {
+    fn tok(&self) -> String {
+        match self {
+            Act::Inc => "inc".into(),
+            Act::Meta(k, v) => format!("m:{}:{}", CTX_KEYS[*k], CTX_VALS[*v]),
+        }
+    }
+    fn apply(&self, c: &mut OperationContext) {
+        match self {
+            Act::Inc => c.increment_retry(),
+            Act::Meta(k, v) => c.add_metadata(CTX_KEYS[*k], CTX_VALS[*v]),
+        }
+    }
+}
+fn acts_str(a: &[Act]) -> String {
+    if a.is_empty() { "-".into() } else { a.iter().map(Act::tok).collect::<Vec<_>>().join(",") }
+}
+
+fn one_context(cx: &mut Ctx, name: &str, pre: &[Act], ops: &[Act], r_in: Oc) {
+    let ncalls = Cell::new(0usize);
+    let r = guarded(|| {
+        let mut c = OperationContext::new(name);
+        for a in pre { a.apply(&mut c); }
+        run_with_context(c, |c: &mut OperationContext| -> CloudResult<u64> {
+            ncalls.set(ncalls.get() + 1);
+            for a in ops { a.apply(c); }
+            match r_in {
+                Oc::Ok => Ok(0),
+                Oc::Err(k) => Err(CloudIOError::new(all_kinds()[k].clone(), "e0")),
+            }
+        })
+    });
+    let show = |c: &OperationContext| {
+        let mut kv: Vec<(&String, &String)> = c.metadata.iter().collect();
+        kv.sort();
+        let m = if kv.is_empty() { "-".to_string() } else { kv.iter().map(|(k, v)| format!("{k}={v}")).collect::<Vec<_>>().join(",") };
+        format!("name={} rc={} meta={m}", c.operation_name, c.retry_count)
+    };
+    let out = match &r {
+        Err(_) => "PANIC".to_string(),
+        Ok(Ok((v, c))) => format!("OK:{v} {}", show(c)),
+        Ok(Err(e)) => err_str(e),
+    };
+    let i = cx.case(format!("CONTEXT name={name} pre={} ops={} r={}", acts_str(pre), acts_str(ops), r_in.tok()), out.clone(), !ops.is_empty());
+    cx.count(if r_in == Oc::Ok { "context:ok" } else { "context:err" });
+    // ---- oracle: the operation ran once; Ok -> its value and the context exactly as the operation left it ----
+    if r.is_err() { ofail(cx, i, "context-panicked", format!("{r:?}")); return; }
+    if ncalls.get() != 1 { ofail(cx, i, "context-operation-not-called-exactly-once", format!("{} calls", ncalls.get())); }
+    let want = match r_in {
+        Oc::Err(k) => format!("ERR:{}:0", kind_name(k)),
+        Oc::Ok => {
+            let mut rc = 0u32;
+            let mut m: std::collections::BTreeMap<&str, &str> = Default::default();
+            for a in pre.iter().chain(ops.iter()) {
+                match a { Act::Inc => rc += 1, Act::Meta(k, v) => { m.insert(CTX_KEYS[*k], CTX_VALS[*v]); } }
+            }
+            let ms = if m.is_empty() { "-".to_string() } else { m.iter().map(|(k, v)| format!("{k}={v}")).collect::<Vec<_>>().join(",") };
+            format!("OK:0 name={name} rc={rc} meta={ms}")
+        }
+    };
+    if out != want { ofail(cx, i, "context-wrong-result", format!("returned {out}, expected {want}")); }
 }
 
 // ---------------------------------------------------------------------------------------------
@@ -830,6 +1199,66 @@ pub fn run(cx: &mut Ctx) {
     one_page(cx, "raw", 10, Some(0), &[Pg::Page(1, true), Pg::Page(1, true)]); // limit 0 still fetches one page
     one_page(cx, "cio", 10, Some(2), &[Pg::Page(1, true), Pg::Page(1, true), Pg::Page(1, true)]);
     one_iobatch(cx, RCfg { max: 2, init: 1, cap: 1, mult: 0.0 }, 3, &[net, Oc::Ok, Oc::Ok, net, net]);
+    one_batch_p(cx, "run", 7, 2, true, &[Pr::Ok, Pr::Err(5), Pr::Ok]); // parallel = true: still stops at the first failing chunk
+    one_parallel(cx, &[Oc::Ok, Oc::Ok, net, Oc::Ok]); // sequential, nothing after the first failure
+    one_context(cx, "upload_batch", &[Act::Inc], &[Act::Meta(0, 0), Act::Inc, Act::Meta(0, 1)], Oc::Ok);
+
+    // ---- (1b) real waits first (a run whose waits are inflated must not spend hours in the later blocks) ----
+    {
+        // wait block: the cap clause ON THE REAL CLOCK. cap = 2 ms, 63 waits per run (budget 64, 70 transient
+        // outcomes): no single wait after the first above cap + 200 ms, the shortest wait not above cap + 15 ms
+        // (see the header: REAL TIME); every verdict confirmed by re-execution.
+        let t70: Vec<Oc> = (0..70).map(|j| Oc::Err(SPEC_TRANSIENT[j % 4])).collect();
+        let mut cfgs: Vec<RCfg> = vec![
+            RCfg { max: 64, init: 1, cap: 2, mult: 2.0 },
+            RCfg { max: 64, init: 2, cap: 2, mult: 1.5 },
+            RCfg { max: 64, init: 3, cap: 2, mult: 2.0 },
+            RCfg { max: 64, init: 0, cap: 0, mult: 2.0 }, // zero delays must really be zero waits
+        ];
+        if cx.tier == Tier::Thorough {
+            cfgs.push(RCfg { max: 64, init: 1, cap: 1, mult: f64::NAN });
+            cfgs.push(RCfg { max: 64, init: 0, cap: 3, mult: 2.0 });
+            cfgs.push(RCfg { max: 30, init: 5, cap: 4, mult: 3.0 });
+        }
+        let mut cnt = 0usize;
+        let ws: &[&str] = if cx.tier == Tier::Thorough { &["raw", "run", "cio", "bld", "exe", "tr", "ciotr"] } else { &["raw", "run", "cio", "bld", "exe"] };
+        // short probes first (3 waits each): a gross inflation (seconds instead of milliseconds) is confirmed
+        // here in seconds, before the 63-wait runs
+        for w in ws.iter() {
+            let lim = if *w == "tr" || *w == "ciotr" { Some(60_000) } else { None };
+            let rec = exec_retry_w(w, Some(RCfg { max: 4, init: 1, cap: 2, mult: 2.0 }), lim, 0, &t70[..4], Waits::Cap);
+            emit(cx, rec, true, "wait:oracle-only");
+            cnt += 1;
+        }
+        let gross = cx.fails.iter().any(|f| f.signature == SIG_LONG);
+        for (j, w) in ws.iter().enumerate() {
+            if gross { break; }
+            let picks: Vec<RCfg> = if cx.tier == Tier::Thorough { cfgs.clone() } else { vec![cfgs[j % cfgs.len()]] };
+            for c in picks {
+                let lim = if *w == "tr" || *w == "ciotr" { Some(60_000) } else { None };
+                let rec = exec_retry_w(w, Some(c), lim, 0, &t70, Waits::Cap);
+                emit(cx, rec, true, "wait:oracle-only");
+                cnt += 1;
+            }
+        }
+        let picks: Vec<RCfg> = if gross { vec![] } else if cx.tier == Tier::Thorough { cfgs.clone() } else { vec![cfgs[0]] };
+        for c in picks {
+            let rec = exec_iobatch_w(c, 1, &t70, Waits::Cap);
+            emit(cx, rec, true, "wait:oracle-only");
+            cnt += 1;
+        }
+        cx.exhaustive_blocks.push(format!(
+            "real waits (cap clause on the real clock): 70 transient outcomes, max_attempts 64 (63 real waits per run), cap 2 ms and 0 ms (thorough: also 1, 3, 4 ms), initial delay below / at / above the cap, on {} retry entry points and run_cloud_io_batch over one item ({cnt} runs): every wait >= the reported one, no wait after the first > cap + 200 ms, shortest wait <= cap + 15 ms; verdicts confirmed by {WAIT_CONFIRM} executions",
+            ws.len()
+        ));
+    }
+    if cx.fails.iter().any(|f| f.signature == SIG_LONG || f.signature == SIG_SHORT) {
+        // the real waits are not the reported ones (confirmed by re-execution): every later block sleeps
+        // through the same code thousands of times and would take hours; the run already has its failing input
+        cx.notes.push("real waits differ from the reported ones (confirmed): the remaining generator blocks were skipped".into());
+        timing_note(cx);
+        return;
+    }
 
     // ---- (2) exhaustive small scope ----
     let outcomes = all_outcomes();
@@ -922,6 +1351,27 @@ pub fn run(cx: &mut Ctx) {
         ));
     }
     {
+        // long scripts: budgets far beyond the exhaustive block (an attempt ceiling such as `.min(16)` is invisible
+        // below it). 70 transient outcomes / 69 + Ok / 69 + permanent x budgets x every retry entry point and the
+        // per-item batch, zero delays.
+        let t = |n: usize| -> Vec<Oc> { (0..n).map(|j| Oc::Err(SPEC_TRANSIENT[j % 4])).collect() };
+        let mut scripts: Vec<Vec<Oc>> = vec![t(70)];
+        let mut s = t(69); s.push(Oc::Ok); scripts.push(s);
+        let mut s = t(69); s.push(Oc::Err(2)); scripts.push(s);
+        let budgets = [16u32, 17, 33, 64, 65, 1000, u32::MAX];
+        let mut cnt = 0usize;
+        for s in &scripts {
+            for &max in &budgets {
+                for w in ["raw", "run", "cio", "bld", "exe"] { one_retry(cx, w, Some(zero(max)), None, 0, s, true); cnt += 1; }
+                for w in ["tr", "ciotr", "bld", "exe"] { one_retry(cx, w, Some(zero(max)), Some(60_000), 0, s, true); cnt += 1; }
+                for n_items in [1usize, 2] { one_iobatch(cx, zero(max), n_items, s); cnt += 1; }
+            }
+        }
+        cx.exhaustive_blocks.push(format!(
+            "retry, long scripts: {{70 transient outcomes, 69 transient + Ok, 69 transient + NotFound}} x max_attempts {budgets:?} x retry_with_backoff / run_with_retry / run_cloud_io_with_retry / builder / executor, the four timeout+retry entry points (60 s limit), run_cloud_io_batch over 1 and 2 items; zero delays ({cnt} cases, up to 70 attempts each)"
+        ));
+    }
+    {
         // delays: all-transient prefixes, every small (initial, cap), the multiplier classes
         let inits: Vec<u64> = if cx.tier != Tier::Thorough { vec![0, 1, 2] } else { vec![0, 1, 2, 3] };
         let caps: Vec<u64> = if cx.tier != Tier::Thorough { vec![0, 1, 3] } else { vec![0, 1, 2, 3] };
@@ -946,19 +1396,27 @@ pub fn run(cx: &mut Ctx) {
         for n in 0..=8usize {
             for size in 0..=9usize {
                 let n_chunks = n.div_ceil(size.max(1));
-                for w in ["raw", "run"] {
-                    one_batch(cx, w, n, size, &[]);
+                for (w, par) in [("raw", false), ("run", false), ("run", true)] {
+                    one_batch_p(cx, w, n, size, par, &[]);
                     cnt += 1;
                     for j in 0..=n_chunks { // j == n_chunks: the failure is scripted beyond the last chunk
                         let mut f = vec![Pr::Ok; j];
                         f.push(Pr::Err((j + n + size) % 11));
-                        one_batch(cx, w, n, size, &f);
+                        one_batch_p(cx, w, n, size, par, &f);
                         cnt += 1;
                     }
                 }
             }
         }
-        cx.exhaustive_blocks.push(format!("batch: items 0..8 x chunk size 0..9 x failing chunk (none, every index, one past the end) x batch_in_chunks / run_batch_operation ({cnt} cases)"));
+        // many items / many chunks (a chunk-count ceiling is invisible below it)
+        for (n, size, fail_at) in [(1000usize, 1usize, None), (1000, 1, Some(777usize)), (1000, 7, Some(100)), (1500, 0, None), (1000, 999, Some(1)), (1000, 1001, None)] {
+            for (w, par) in [("raw", false), ("run", false), ("run", true)] {
+                let f: Vec<Pr> = match fail_at { None => vec![], Some(j) => { let mut f = vec![Pr::Ok; j]; f.push(Pr::Err(5)); f } };
+                one_batch_p(cx, w, n, size, par, &f);
+                cnt += 1;
+            }
+        }
+        cx.exhaustive_blocks.push(format!("batch: items 0..8 x chunk size 0..9 x failing chunk (none, every index, one past the end) x batch_in_chunks / run_batch_operation with parallel = false and true; 1000-1500 items in up to 1500 chunks ({cnt} cases)"));
     }
     {
         // pagination: every page script over {empty, 1, 2 items} x has_more x {permanent, transient error}
@@ -974,7 +1432,41 @@ pub fn run(cx: &mut Ctx) {
                 cnt += 1;
             }
         }
-        cx.exhaustive_blocks.push(format!("pagination: all {} page scripts of length <= {pl} over {{0,1,2 items}} x has_more x {{NotFound, Network}} errors x max_pages {{None,0,1,2,3,4,6}} ({cnt} cases)", scripts.len()));
+        // long listings (a page ceiling such as `page >= 1000` is invisible below it): 1100 one-item pages
+        let all_more: Vec<Pg> = vec![Pg::Page(1, true); 1100];
+        let mut last_final = vec![Pg::Page(1, true); 1099];
+        last_final.push(Pg::Page(1, false));
+        let mut long_cnt = 0usize;
+        for w in ["raw", "run", "cio"] {
+            for mp in [None, Some(2000u32)] { one_page(cx, w, 1, mp, &all_more); long_cnt += 1; }
+            for mp in [None, Some(2000u32), Some(1100), Some(1050)] { one_page(cx, w, 1, mp, &last_final); long_cnt += 1; }
+        }
+        cx.exhaustive_blocks.push(format!("pagination: all {} page scripts of length <= {pl} over {{0,1,2 items}} x has_more x {{NotFound, Network}} errors x max_pages {{None,0,1,2,3,4,6}} ({cnt} cases); 1100 one-item pages (all has_more / the last one final) x max_pages {{None, 2000, 1100, 1050}} x 3 entry points ({long_cnt} cases)", scripts.len()));
+    }
+    {
+        // run_parallel: every outcome script of length <= 3 (4 thorough)
+        let pl = match cx.tier { Tier::Thorough => 4, _ => 3 };
+        let mut scripts: Vec<Vec<Oc>> = vec![];
+        for_all_seqs(&outcomes, pl, &mut |s| scripts.push(s.to_vec()));
+        for s in &scripts { one_parallel(cx, s); }
+        // run_with_context: every action list of length <= 3 over {inc, 2 keys x 2 values} as the operation's
+        // actions, after 0 or 2 preparatory actions, ending in Ok / a permanent / a transient error
+        let acts = [Act::Inc, Act::Meta(0, 0), Act::Meta(0, 1), Act::Meta(1, 0), Act::Meta(1, 2)];
+        let mut lists: Vec<Vec<Act>> = vec![];
+        for_all_seqs(&acts, 3, &mut |a| lists.push(a.to_vec()));
+        let mut cnt = 0usize;
+        for a in &lists {
+            for pre in [&[][..], &[Act::Meta(0, 2), Act::Inc][..]] {
+                for r in [Oc::Ok, Oc::Err(2), Oc::Err(5)] {
+                    one_context(cx, ["op", "upload_batch", "x-1"][cnt % 3], pre, a, r);
+                    cnt += 1;
+                }
+            }
+        }
+        cx.exhaustive_blocks.push(format!(
+            "run_parallel: all {} outcome scripts of length <= {pl}; run_with_context: all {} action lists of length <= 3 over {{increment_retry, add_metadata on 2 keys x 2 values}} x {{fresh, prepared}} context x {{Ok, NotFound, Network}} ({cnt} cases)",
+            scripts.len(), lists.len()
+        ));
     }
     {
         // with_timeout alone: every outcome kind, within / over the limit (wide margins)
@@ -1015,14 +1507,15 @@ pub fn run(cx: &mut Ctx) {
     // ---- (3) random block: longer scripts, bigger budgets, all wrappers, small real delays ----
     let rounds = cx.budget(1500, 20000);
     for _ in 0..rounds {
-        let len = cx.rng.below(13);
-        let p_ok = cx.rng.below(4);
+        let long = cx.rng.chance(1, 10);
+        let len = if long { 13 + cx.rng.below(68) } else { cx.rng.below(13) };
+        let p_ok = if long { 0 } else { cx.rng.below(4) };
         let script: Vec<Oc> = (0..len).map(|_| {
             let r = cx.rng.below(10);
-            if r < p_ok { Oc::Ok } else if r < 8 { Oc::Err(SPEC_TRANSIENT[cx.rng.below(4)]) } else { Oc::Err(cx.rng.below(11)) }
+            if r < p_ok { Oc::Ok } else if r < 8 || long { Oc::Err(SPEC_TRANSIENT[cx.rng.below(4)]) } else { Oc::Err(cx.rng.below(11)) }
         }).collect();
-        let max = *cx.rng.pick(&[0u32, 1, 2, 3, 4, 5, 6, 8, 12, 1000, u32::MAX]);
-        let slow = cx.rng.chance(1, 12);
+        let max = if long { *cx.rng.pick(&[13u32, 16, 17, 20, 32, 50, 64, 80, 1000, u32::MAX]) } else { *cx.rng.pick(&[0u32, 1, 2, 3, 4, 5, 6, 8, 12, 1000, u32::MAX]) };
+        let slow = !long && cx.rng.chance(1, 12);
         let c = RCfg {
             max,
             init: if slow { cx.rng.below(4) as u64 } else { 0 },
@@ -1050,8 +1543,8 @@ pub fn run(cx: &mut Ctx) {
         let size = *cx.rng.pick(&[0usize, 1, 2, 3, 5, 7, 10, 39, 40, 41, 1000, usize::MAX]);
         let flen = cx.rng.below(6);
         let f: Vec<Pr> = (0..flen).map(|_| match cx.rng.below(8) { 0 => Pr::Dup, 1 => Pr::Nil, 2 => Pr::Err(cx.rng.below(11)), _ => Pr::Ok }).collect();
-        let w = *cx.rng.pick(&["raw", "run"]);
-        one_batch(cx, w, n, size, &f);
+        let (w, par) = *cx.rng.pick(&[("raw", false), ("run", false), ("run", true)]);
+        one_batch_p(cx, w, n, size, par, &f);
     }
     let rounds = cx.budget(600, 8000);
     for _ in 0..rounds {
@@ -1066,5 +1559,22 @@ pub fn run(cx: &mut Ctx) {
         let psize = *cx.rng.pick(&[0u32, 1, 10, 100, u32::MAX]);
         one_page(cx, w, psize, mp, &script);
     }
-    check_timing_skip_rate(cx);
+    // run_parallel / run_with_context: longer random inputs
+    let rounds = cx.budget(300, 4000);
+    for _ in 0..rounds {
+        let len = cx.rng.below(40);
+        let p_err = cx.rng.below(5);
+        let script: Vec<Oc> = (0..len).map(|_| if cx.rng.below(20) < p_err { Oc::Err(cx.rng.below(11)) } else { Oc::Ok }).collect();
+        one_parallel(cx, &script);
+        let mk = |cx: &mut Ctx| -> Vec<Act> {
+            let n = cx.rng.below(12);
+            (0..n).map(|_| if cx.rng.chance(1, 3) { Act::Inc } else { Act::Meta(cx.rng.below(3), cx.rng.below(3)) }).collect()
+        };
+        let pre = mk(cx);
+        let ops = mk(cx);
+        let r = if cx.rng.chance(2, 3) { Oc::Ok } else { Oc::Err(cx.rng.below(11)) };
+        let name = *cx.rng.pick(&["op", "upload_batch", "x-1", "A"]);
+        one_context(cx, name, &pre, &ops, r);
+    }
+    timing_note(cx);
 }
